@@ -11,6 +11,9 @@ claimed={
  "C02": dict(level="exploration", engine="venum", design="7 C02", technique=E2,
    text="Library verdict and decoded fields are compared with a reference validator on every string 7E m 7E over {7D,01,02,00} up to length 13 (15 thorough), a structured header/length/checksum/escape product, and every single-byte/bit corruption, truncation and insertion of valid frames.",
    note="Trusts harness/ref/frame.go; encryption compared as bit 10 only (documented meaning)."),
+ "C03": dict(level="exploration", engine="venum", design="7 C03", technique=E2.replace("against a reference model","with totality / placement-independence / history-independence oracles"),
+   text="For ~80 subjects (every exported message type x header version x dialect, 0x0200 with the five vendor parsers, frame and RTP decoders): all short byte strings over small alphabets, every truncation point of every seed body followed by all short suffixes, every single-byte substitution and structural double substitution, extensions, and all ordered pairs/triples of bodies on one receiver. Each case must not panic, must give the same outcome on an exact-capacity slice and on two differently poisoned larger buffers, must render with String(), and a reused receiver must equal a fresh one.",
+   note="Seeds are the valid bodies in the repository's own test files plus harness samples. Finite alphabets; a per-worker watchdog turns a non-terminating parse into a violation."),
  "C06": dict(level="model_checking", engine="vsched", design="7 C06", technique=E1+" plus exhaustive message histories up to depth 2/3",
    text="The real server (service.New/Run over a virtual listener) is driven with every history of 1..2 (thorough 3) terminal messages over the default IDs/versions/serials and a 65540-message wrap run under the run-to-block schedule, and with representative one- and two-connection histories under all schedules within 2 (thorough 3) deviations; replies, their order, platform serials and callback counts/order are compared with a reference reply table.",
    note="Scheduling points are channel/socket/once/sleep operations; the socket is the vnet byte-stream model; reply table harness/ref/reply.go."),
@@ -27,7 +30,7 @@ claimed={
    text="The terminal closes or resets before join, after join, after k commands were written, after answering all or some, or never answers, with k=0..2 (thorough 0..5) queued/outstanding commands and write failures as a socket answer; every schedule within 2 (thorough 3) deviations. No goroutine may panic and at quiescence every caller must have returned.",
    note="'Within its timeout plus slack' is decided as eventual return in every maximal execution with timers as events."),
  "C18": dict(level="model_checking", engine="vsched", design="7 C18", technique=E1+", every explored schedule executed under the Go race runtime with only the program's own happens-before edges visible",
-   text="The scenario families of C06/C09/C11/C12/C13 are explored in the -race build with 1 (thorough 2) deviations; token hand-offs are hidden from the race runtime (RaceDisable) and exactly the Go-memory-model edges of channel operations, sync.Once and go statements are re-created, so each schedule is checked for happens-before races although threads never overlap physically. An idiom corpus (race-free idioms silent, seeded races reported) runs first as a self-test.",
+   text="The scenario families of C06/C09/C11/C12/C13 are explored in the -race build with 2 (thorough 3) deviations; token hand-offs are hidden from the race runtime (RaceDisable) and exactly the Go-memory-model edges of channel operations, sync.Once and go statements are re-created, so each schedule is checked for happens-before races although threads never overlap physically. An idiom corpus (race-free idioms silent, seeded races reported) runs first as a self-test.",
    note="The race runtime can miss a race (4 shadow cells, report de-duplication, incidental sync.Pool edges inside fmt), never invent one. Reports without a repository frame, or raised by a runtime helper called from a shim, abort the check as broken."),
  "C17": dict(level="exploration", engine="venum", design="7 C17", technique=E2,
    text="Packets from a reference encoder (all 16 data types x 16 sub-package marks x PT/M/attr menus x payload lengths around 0, 950 and 65535), all sequences of 1..2 (thorough 3) packets from a 29-packet menu and every prefix of them, plus arbitrary short strings, are decoded from the front with a fresh and with a reused Packet and compared field by field with a reference reader; truncations must be classified short/unqualified.",
